@@ -797,6 +797,26 @@ impl<'a, 'tcx> Cx<'a, 'tcx> {
                 o.push(("func", self.operand(func)));
                 o.push(("args", J::A(args.iter().map(|a| self.operand(&a.node)).collect())));
                 o.push(("dest", self.place(destination)));
+                // Drop impls (and user destructors) reachable through by-value arguments: an
+                // external callee that receives ownership may run them
+                let mut ad_impls: Vec<String> = vec![];
+                let mut ad_user = false;
+                for a in args.iter() {
+                    if let Operand::Move(p) = &a.node {
+                        let aty = p.ty(self.body, tcx).ty;
+                        if aty.needs_drop(tcx, self.env) {
+                            let (impls, user) = self.drop_info(aty);
+                            for i in impls {
+                                if !ad_impls.contains(&i) {
+                                    ad_impls.push(i);
+                                }
+                            }
+                            ad_user |= user;
+                        }
+                    }
+                }
+                o.push(("arg_drop_impls", J::A(ad_impls.into_iter().map(s).collect())));
+                o.push(("arg_user_drop", J::B(ad_user)));
                 o.push((
                     "target",
                     target.map(|b| J::I(b.index() as i64)).unwrap_or(J::Null),
@@ -1201,7 +1221,7 @@ fn impl_record<'tcx>(tcx: TyCtxt<'tcx>, ldid: LocalDefId) -> Option<J> {
         }
         let mut items = vec![];
         for it in tcx.associated_items(did).in_definition_order() {
-            let mut io = vec![("name", s(it.name().to_string())), ("kind", s(format!("{:?}", it.kind).split(|c| c == ' ' || c == '{' || c == '(').next().unwrap_or("").to_string()))];
+            let mut io = vec![("name", s(it.opt_name().map(|n| n.to_string()).unwrap_or_default())), ("kind", s(format!("{:?}", it.kind).split(|c| c == ' ' || c == '{' || c == '(').next().unwrap_or("").to_string()))];
             if let ty::AssocKind::Type { .. } = it.kind {
                 io.push(("ty", s(ty_str(tcx, tcx.type_of(it.def_id).instantiate_identity().skip_norm_wip()))));
             }
